@@ -110,6 +110,44 @@ fn gen_history(seed: u64, idx: u64) -> Hist {
     Hist { idx, cfg, reuse0: g.bool(), start, dir_exists: g.bool(), steps, recs }
 }
 
+/// Tiny histories (2-3 batches of 1-2 small records, reuse on for even indices) for the exhaustive
+/// two-fault enumeration.
+fn gen_tiny(seed: u64, idx: u64) -> Hist {
+    let mut g = Rng::stream(seed, &[10, 7, idx]);
+    let sep: &'static [u8] = if idx % 4 < 2 { SEPS[0] } else { SEPS[1] };
+    let cfg = Cfg {
+        dir: "logs".into(),
+        prefix: "app".into(),
+        ext: "log".into(),
+        roll: Roll::Minute,
+        max_files: if idx % 3 == 2 { 2 } else { 1000 },
+        max_size: *g.pick(&[40usize, 1 << 20]),
+        sep,
+    };
+    let start = (days_from_civil(2024, 2, 29) as u64 * 86_400 + 86_400 - 2) * 1_000_000_000;
+    let mut steps = Vec::new();
+    let mut recs: Vec<Vec<u8>> = Vec::new();
+    let n_batches = 2 + g.usize(2);
+    for b in 0..n_batches {
+        if b > 0 && g.chance(1, 4) {
+            steps.push(Step::Restart { reuse: g.bool() });
+        }
+        let mut ids = Vec::new();
+        for k in 0..1 + g.usize(2) {
+            let plen = g.usize(24);
+            let mut rec = format!("{:x}.{:x}:{}:", b, k, plen).into_bytes();
+            for _ in 0..plen {
+                rec.push(b'a' + g.below(26) as u8);
+            }
+            rec.push(sep[0]);
+            ids.push(recs.len());
+            recs.push(rec);
+        }
+        steps.push(Step::Batch { adv_ms: *g.pick(&[0u64, 5, 1_500, 61_000]), retry_adv_ms: *g.pick(&[0u64, 7]), recs: ids });
+    }
+    Hist { idx: 1_000_000 + idx, cfg, reuse0: idx % 2 == 0, start, dir_exists: g.bool(), steps, recs }
+}
+
 impl Hist {
     fn to_json(&self) -> Json {
         json!({
@@ -279,14 +317,31 @@ impl<'a> Oracle<'a> {
                         let c = n.content();
                         c.windows(rec.len()).any(|w| w == &rec[..])
                     });
+                    let vanished = st.vanished.iter().find(|(_, c)| c.windows(rec.len()).any(|w| w == &rec[..])).map(|(p, _)| p.clone());
+                    let (oracle, detail) = if somewhere_unsynced {
+                        ("ack-not-synced", "it exists only in unsynced bytes".to_string())
+                    } else if let Some(p) = vanished {
+                        let reused = st.log.iter().any(|o| o.kind == OpKind::OpenExisting && o.path == p && o.ok());
+                        let syncdir_failed = st.log.iter().any(|o| o.kind == OpKind::SyncDir && o.path == p && !o.ok());
+                        (
+                            if reused && syncdir_failed {
+                                "ack-lost:file-vanished-in-crash:reused-after-failed-sync-dir"
+                            } else {
+                                "ack-lost:file-vanished-in-crash:dir-entry-never-synced"
+                            },
+                            format!("it was synced into {} whose directory entry was never synced, so the file vanished in the crash", p),
+                        )
+                    } else {
+                        ("ack-lost", "it is in no file at all".to_string())
+                    };
                     out.problems.push((
-                        if somewhere_unsynced { "ack-not-synced" } else { "ack-lost" },
+                        oracle,
                         format!(
                             "{}: record {:?} ({} bytes) of an acknowledged batch is not a complete record in synced content ({})",
                             when,
                             show_bytes(&rec[..rec.len().min(16)]),
                             rec.len(),
-                            if somewhere_unsynced { "it exists only in unsynced bytes" } else { "it is in no file at all" }
+                            detail
                         ),
                     ));
                 }
@@ -303,6 +358,7 @@ fn run(h: &Hist, plan: &Plan) -> Outcome {
         fs.add_dir(&h.cfg.dir);
     }
     fs.set_plan(plan.faults.clone());
+    fs.set_sep(h.cfg.sep[0]);
     let clock = FakeClock::new(h.start);
     let ids = IdRng::new(h.idx + 1, IdMode::Counting);
     let mut rig = Rig::new(fs.clone(), clock.clone(), ids, h.cfg.clone());
@@ -365,6 +421,26 @@ fn run(h: &Hist, plan: &Plan) -> Outcome {
                         Attempt::GiveUp => {
                             out.given_up += 1;
                             oracle.check(&fs, &acked, &mut out, &when);
+                            // A batch that failed mid-write has to be written again; only a failed
+                            // flush / sync is documented as "not retried".
+                            let (write_failed, sync_failed) = {
+                                let st = fs.lock();
+                                let tag = batch_no * 16 + attempts as u64;
+                                let ops = st.log.iter().filter(|o| o.tag == tag && o.res == Res::InjectedErr);
+                                let mut w = false;
+                                let mut s = false;
+                                for o in ops {
+                                    w |= o.kind == OpKind::Write;
+                                    s |= matches!(o.kind, OpKind::Flush | OpKind::Sync);
+                                }
+                                (w, s)
+                            };
+                            if write_failed && !sync_failed {
+                                out.problems.push((
+                                    "batch-dropped-after-write-failure",
+                                    format!("{}: a write failed mid-batch and the worker gave the batch up instead of handing it back for a retry", when),
+                                ));
+                            }
                             break;
                         }
                         Attempt::Crash => {
@@ -424,8 +500,9 @@ fn evaluate(r: &mut Report, seed: u64, h: &Hist, plan: &Plan, variant: u64) -> O
         r.nontrivial(&(h.idx, plan.faults.iter().map(|f| (f.at, f.kind)).collect::<Vec<_>>(), variant));
     }
     for (oracle, msg) in &out.problems {
+        let sig = if oracle.starts_with("ack-lost:file-vanished") { format!("C10:{}", oracle) } else { format!("C10:{}:{}", oracle, fault_desc(&out, plan)) };
         r.violation(
-            &format!("C10:{}:{}", oracle, fault_desc(&out, plan)),
+            &sig,
             msg,
             json!({"seed": seed, "history": h.idx, "plan": plan.to_json(), "history_detail": h.to_json()}),
         );
@@ -470,59 +547,47 @@ fn main() {
         let hidx = case.get("history").and_then(|v| v.as_u64()).unwrap_or(0);
         let cseed = case.get("seed").and_then(|v| v.as_u64()).unwrap_or(seed);
         let plan = case.get("plan").and_then(Plan::from_json).unwrap_or_else(Plan::none);
-        let h = gen_history(cseed, hidx);
+        let h = if hidx >= 1_000_000 { gen_tiny(cseed, hidx - 1_000_000) } else { gen_history(cseed, hidx) };
         evaluate(&mut r, cseed, &h, &plan, 0);
         evaluate(&mut r, cseed, &h, &Plan::none(), 99);
         r.observe("replay", 1);
         std::process::exit(r.finish());
     }
 
-    let n_hist = args.n(60, 1500);
-    let n_multi = args.n(60, 400);
+    let n_hist = args.n(400, 12_000);
+    let n_multi = args.n(100, 300);
+    r.set("histories", json!(n_hist));
+    r.set("multi_fault_plans_per_history", json!(n_multi));
+    r.set(
+        "crash_model",
+        json!("per file: synced bytes + {none | all | seeded prefix} of the unsynced bytes survive; files whose directory entry was never synced survive or vanish; unsynced deletions persist or are undone"),
+    );
 
-    // pass 1: fault-free runs (oracle on) to count the operations of every history
-    let hists: Vec<Hist> = (0..n_hist).map(|i| gen_history(seed, i)).collect();
-    let mut work: Vec<(usize, usize, OpKind)> = Vec::new();
-    for (hi, h) in hists.iter().enumerate() {
-        let out = evaluate(&mut r, seed, h, &Plan::none(), 99);
-        r.observe("fault-free-ops", out.ops as u64);
+    par_cases(&mut r, &args, n_hist, |hi, r| {
+        let h = gen_history(seed, hi);
+        // pass 1: fault-free run (oracle on) to count the operations of this history
+        let base = evaluate(r, seed, &h, &Plan::none(), 99);
+        r.observe("fault-free-ops", base.ops as u64);
         if hi < 2 {
             let hj = h.to_json();
-            let ops = out.ops;
+            let ops = base.ops;
             r.sample(move || json!({"history": hj, "fault_free_ops": ops}));
         }
-        for (at, k) in out.op_kinds.iter().enumerate() {
-            work.push((hi, at, *k));
-        }
-        // one op past the end: nothing to hit, shows that an unhit fault is not counted
-    }
-    r.set("histories", json!(n_hist));
-    r.set("single_fault_sites", json!(work.len()));
-
-    // pass 2: every op index x every fault kind
-    let work_ref = &work;
-    let hists_ref = &hists;
-    par_cases(&mut r, &args, work.len() as u64, |i, r| {
-        let (hi, at, kind) = work_ref[i as usize];
-        let h = &hists_ref[hi];
-        for (plan, variant) in plans_for(at, kind, h) {
-            let out = evaluate(r, seed, h, &plan, variant);
-            if out.hits.is_empty() {
-                r.inconclusive(format!("history {} op {}: planned fault was never reached (run is not deterministic?)", h.idx, at));
-            }
-            if r.wants_sample() && i % 977 == 5 {
-                let (pj, hits) = (plan.to_json(), out.hits.len());
-                let hidx = h.idx;
-                r.sample(move || json!({"history": hidx, "plan": pj, "faults_hit": hits}));
+        // pass 2: every op index x every fault kind
+        for (at, kind) in base.op_kinds.iter().enumerate() {
+            for (plan, variant) in plans_for(at, *kind, &h) {
+                let out = evaluate(r, seed, &h, &plan, variant);
+                if out.hits.is_empty() {
+                    r.inconclusive(format!("history {} op {}: planned fault was never reached (run is not deterministic?)", h.idx, at));
+                }
+                if hi == 3 && at % 9 == 4 && variant % 5 == 0 && r.wants_sample() {
+                    let (pj, hits) = (plan.to_json(), out.hits.iter().map(|(a, k, o)| json!([a, k.name(), o.name()])).collect::<Vec<_>>());
+                    r.sample(move || json!({"history": 3, "plan": pj, "faults_hit": hits}));
+                }
             }
         }
-    });
-    r.exhaustive("for every generated history: every filesystem-operation index of its fault-free run x {error, 4 short-write splits on writes, crash x 3 loss models x 2 restart modes}");
-
-    // pass 3: seeded sequences of 2-3 faults
-    par_cases(&mut r, &args, hists.len() as u64, |hi, r| {
-        let h = &hists_ref[hi as usize];
-        let n_ops = work_ref.iter().filter(|w| w.0 == hi as usize).count();
+        // pass 3: seeded sequences of 2-3 faults
+        let n_ops = base.ops;
         for m in 0..n_multi {
             let mut g = Rng::stream(seed, &[10, 3, h.idx, m]);
             let k = 2 + g.usize(2);
@@ -547,9 +612,48 @@ fn main() {
                 };
             }
             let plan = Plan { faults, loss: *g.pick(&[Loss::All, Loss::Nothing, Loss::Seeded, Loss::Seeded]), crash_reuse: g.bool(), loss_seed: g.next() };
-            evaluate(r, seed, h, &plan, 1000 + m);
+            evaluate(r, seed, &h, &plan, 1000 + m);
         }
     });
+    r.exhaustive("for every generated history: every filesystem-operation index of its fault-free run x {error, 4 short-write splits on writes, crash x 3 loss models x 2 restart modes}");
+
+    // pass 4: exhaustive pairs of faults on tiny histories (first an error / short write, then an
+    // error or a crash at every later op index)
+    let n_tiny = args.n(8, 64);
+    par_cases(&mut r, &args, n_tiny, |ti, r| {
+        let h = gen_tiny(seed, ti);
+        let base = evaluate(r, seed, &h, &Plan::none(), 99);
+        r.observe("fault-free-ops", base.ops as u64);
+        if ti == 0 {
+            let hj = h.to_json();
+            r.sample(move || json!({"tiny_history": hj, "fault_free_ops": base.ops}));
+        }
+        for (i, kind) in base.op_kinds.iter().enumerate() {
+            let firsts: &[FaultKind] = if *kind == OpKind::Write { &[FaultKind::Error, FaultKind::ShortMid] } else { &[FaultKind::Error] };
+            for (fi, first) in firsts.iter().enumerate() {
+                for j in i + 1..base.ops + 10 {
+                    let mut variant = 2000 + fi as u64 * 16;
+                    for (second, loss, reuse) in [
+                        (FaultKind::Error, Loss::All, false),
+                        (FaultKind::Crash, Loss::All, true),
+                        (FaultKind::Crash, Loss::All, false),
+                        (FaultKind::Crash, Loss::Nothing, true),
+                        (FaultKind::Crash, Loss::Seeded, true),
+                    ] {
+                        variant += 1;
+                        let plan = Plan {
+                            faults: vec![Fault { at: i, kind: *first }, Fault { at: j, kind: second }],
+                            loss,
+                            crash_reuse: reuse,
+                            loss_seed: (i * 1000 + j) as u64,
+                        };
+                        evaluate(r, seed, &h, &plan, variant);
+                    }
+                }
+            }
+        }
+    });
+    r.exhaustive("for every tiny history (2-3 batches): every ordered pair of op indices (i < j) x {error, short write} at i x {error, crash with 4 loss/restart variants} at j");
 
     std::process::exit(r.finish());
 }
